@@ -30,6 +30,7 @@ def run(tier, replay=None):
     res = Result("C04", tier, "proof")
     res.assumptions = ["Open MPI / Boost.MPI collective semantics (a collective completes iff all ranks enter it; reduce with a commutative operator may combine in any tree) — trusted",
                        "literal layer: Model/MpiAlgo.lean is an end-to-end literal model of what rank 0 of the five MPI entry points computes; its correctness is PROVED for every P >= 1, every per-rank schedule, reduction tree and sort order (c04_*_mpi_end_to_end), with the literal searches / candidate builder inside; nothing in that model depends on a rank's memory layout",
+                       "literal replay of the MPI tree variants (hook 5536bbc): every rank reports its sorted local candidate list; the model rebuilds each rank's trees and candidates from the rank's chunk (rankCollection) and must obtain exactly the reported candidates; chunk sizes must be the ceil-stride slices and all chunks together rank 0's collection; per phase every rank's lookup is evaluated literally on its reported order (TBB entry points under the stand-in's logged schedules) and what rank 0 emits must be a minimum-weight rank result",
                        "literal replay of mcb_sva_signed_mpi: every rank's parallel_reduce schedules are logged by the stand-in and gathered; per phase every rank's slice is reduced literally (literal heaps, forest-index enumeration) and what rank 0 emits must be a minimum-weight rank result (the reduction tree of boost::mpi::reduce is not observable, so ties between ranks are accepted either way)",
                        "per-rank heap layouts are sampled by the perturbation, not enumerated; after the repair the enumeration order of the signed edges is the ForestIndex order, which no layout can change (c04_pairs_same_order)"]
     lean_ok = lean_gate(res, "Parmcb", THEOREMS)
@@ -90,7 +91,8 @@ def run(tier, replay=None):
     res.coverage.update({"evaluations": nruns, "distinct_nontrivial": len({json.dumps([c[0], c[1], e, ps, P]) for (c, e, ps, P) in jobs.values() if len(c[1]) - c[0] + components(c[0], c[1]) >= 1}),
         "rule": "graph x {mcb_sva_signed_mpi, mcb_sva_fvs_trees_mpi, mcb_sva_fvs_trees_tbb_mpi, mcb_sva_iso_trees_mpi, mcb_sva_iso_trees_tbb_mpi} x communicator sizes %s x heap perturbation seeds (0 = none); non-trivial = cycle space dimension >= 1" % Ps,
         "traces_validated_against_impl": len(oks), "rank_counts": Ps,
-        "mpi_signed_runs_replayed_literally_per_rank_under_the_logged_schedules": sum(int(w[10]) for w in oks if len(w) > 10),
+        "mpi_signed_runs_replayed_literally_per_rank_under_the_logged_schedules": sum(int(w[10]) for w in oks if len(w) > 10 and w[1] in jobs and jobs[w[1]][1] == "mpi_signed"),
+        "mpi_tree_variant_runs_replayed_literally_per_rank_on_the_reported_local_candidate_lists": {e: sum(int(w[10]) for w in oks if len(w) > 10 and w[1] in jobs and jobs[w[1]][1] == e) for e in ("mpi_fvs", "mpi_fvs_tbb", "mpi_iso", "mpi_iso_tbb")},
         "samples": [{"n": c[0], "edges": c[1], "entry": e, "pseed": ps, "P": P} for (c, e, ps, P) in list(jobs.values())[-2:]], **stats(base)})
     if hangs:
         res.violation("MPI entry point: " + hangs[0]["why"], hangs[0])
